@@ -33,7 +33,7 @@ def run(tier, seed):
     ]
     res.assumptions = ["Hugr._to_serial / _from_serial (node listing with a heap, edge loops, metadata list) are NOT under contract: the whole-graph clauses are decided by the bounded run only"]
     targets = c05.targets() + ["hugr.hugr.base._order_port_offset", "hugr.hugr.base.Hugr._constrain_offset"]
-    standard_flow(res, FILES, targets, None, bounded_modules=[("bounded.c02", 300, 1800)])
+    standard_flow(res, FILES, targets, None, bounded_modules=[("bounded.c02", 900, 1800)])
     apply_known(res, "C02")
     res.level = "other"
     res.explanation = ("Proved: every operation, type, argument, parameter and value class decodes back to an equal object (per-class lemmas on the real bodies, shared with C05), and the port offsets "
